@@ -245,6 +245,91 @@ func c06RangeBodyKinds(fd *ast.FuncDecl) []string {
 	return out
 }
 
+// c06Access derives the shared-field access table of fd from its call sequence: one entry
+// "R|W|C <field> <lock held>" per atomic load / store / meta-page access / delegated call, in
+// source order. The lock held is the most recent Lock/RLock call whose unlock is deferred or has
+// not been reached yet ("-" = none).
+func c06Access(fd *ast.FuncDecl) []string {
+	classify := map[string]string{
+		"consumedSeq.Load": "R consumedSeq", "f.ConsumedSeq": "R consumedSeq", "consumedSeq.Store": "W consumedSeq",
+		"acknowledgedSeq.Load": "R acknowledgedSeq", "f.AcknowledgedSeq": "R acknowledgedSeq",
+		"fo.AcknowledgedSeq": "R acknowledgedSeq", "acknowledgedSeq.Store": "W acknowledgedSeq",
+		"metaPage.PutUint64": "W metaPage", "metaPage.ReadUint64": "R metaPage", "metaPage.Sync": "C msync",
+		"q.Queue().AppendedSeq": "R queue.appendedSeq", "queue.AppendedSeq": "R queue.appendedSeq",
+		"q.Queue().AcknowledgedSeq": "R queue.acknowledgedSeq",
+		"queue.SetAcknowledgedSeq": "W queue.acknowledgedSeq", "queue.SetAppendedSeq": "W queue.appendedSeq",
+		"fo.SetSeq": "C SetSeq", "f.consume": "C consume", "f.Queue().Queue().NotEmpty": "C NotEmpty",
+		"newConsumerGroupFunc": "C NewConsumerGroup", "consumerGroup.Close": "C Close", "delete": "W consumerGroups",
+	}
+	var out []string
+	held := "-"
+	for _, c := range CallSeq(fd) {
+		if strings.HasPrefix(c, "λ:") {
+			continue
+		}
+		if strings.HasPrefix(c, "defer:") {
+			continue // a deferred unlock keeps the lock to the end of the function
+		}
+		switch {
+		case strings.HasSuffix(c, ".Lock") || strings.HasSuffix(c, ".RLock"):
+			held = c
+			continue
+		case strings.HasSuffix(c, ".Unlock") || strings.HasSuffix(c, ".RUnlock"):
+			held = "-"
+			continue
+		}
+		if k, ok := classify[c]; ok {
+			out = append(out, k+" "+held)
+		}
+	}
+	return out
+}
+
+// c06TripleList renders "a b c" entries as a Lean list of triples.
+func c06TripleList(es []string) string {
+	parts := make([]string, len(es))
+	for i, e := range es {
+		f := strings.SplitN(e, " ", 3)
+		for len(f) < 3 {
+			f = append(f, "?")
+		}
+		parts[i] = fmt.Sprintf("(%q, %q, %q)", f[0], f[1], f[2])
+	}
+	return "[" + strings.Join(parts, ", ") + "]"
+}
+
+// c06PutArgs lists "value@offset" (source text) for every metaPage.PutUint64 call of fd, in source order.
+func c06PutArgs(fd *ast.FuncDecl) []string {
+	var out []string
+	if fd == nil || fd.Body == nil {
+		return out
+	}
+	ast.Inspect(fd.Body, func(n ast.Node) bool {
+		if ce, ok := n.(*ast.CallExpr); ok && exprName(ce.Fun) == "metaPage.PutUint64" && len(ce.Args) == 2 {
+			out = append(out, c06src(ce.Args[0])+"@"+c06src(ce.Args[1]))
+		}
+		return true
+	})
+	return out
+}
+
+// c06ReturnExprs lists the source text of every returned expression of fd.
+func c06ReturnExprs(fd *ast.FuncDecl) []string {
+	var out []string
+	if fd == nil || fd.Body == nil {
+		return out
+	}
+	ast.Inspect(fd.Body, func(n ast.Node) bool {
+		if rs, ok := n.(*ast.ReturnStmt); ok {
+			for _, r := range rs.Results {
+				out = append(out, c06src(r))
+			}
+		}
+		return true
+	})
+	return out
+}
+
 func init() {
 	Register(Fact{Module: "C06", Gen: func(repo string) (string, error) {
 		_, cf, err := ParseFile(repo, "pkg/queue/constants.go")
@@ -365,6 +450,52 @@ func init() {
 		sb.WriteString("def syncLockedCalls : List String := " + LeanStrList(c06LockedSection(syn)) + "\n")
 		sb.WriteString("def ackLockedCalls : List String := " + LeanStrList(c06LockedSection(ack)) + "\n")
 		sb.WriteString("def consumeLockedCalls : List String := " + LeanStrList(c06LockedSection(FindFunc(cg, "consumerGroup", "consume"))) + "\n")
+		// access tables: which shared field is read / written under which lock (Model/FanOutMicro.lean)
+		pend := FindFunc(cg, "consumerGroup", "Pending")
+		isEmp := FindFunc(cg, "consumerGroup", "IsEmpty")
+		if pend == nil || isEmp == nil {
+			return "", fmt.Errorf("Pending / IsEmpty not found")
+		}
+		for _, f := range []fn{
+			{"consumeOuter", FindFunc(cg, "consumerGroup", "Consume")},
+			{"consume", FindFunc(cg, "consumerGroup", "consume")},
+			{"ack", ack},
+			{"setSeq", FindFunc(cg, "consumerGroup", "SetSeq")},
+			{"setConsumedSeq", FindFunc(cg, "consumerGroup", "SetConsumedSeq")},
+			{"pending", pend},
+			{"isEmpty", isEmp},
+			{"sync", syn},
+			{"fanOutSetAppended", FindFunc(fo, "fanOutQueue", "SetAppendedSeq")},
+			{"getOrCreate", goc},
+			{"stopGroup", FindFunc(fo, "fanOutQueue", "StopConsumerGroup")},
+		} {
+			sb.WriteString("def " + f.lean + "Access : List (String × String × String) := " + c06TripleList(c06Access(f.fd)) + "\n")
+		}
+		// meta page layout: which value goes to which offset, in store order
+		for _, f := range []fn{
+			{"ack", ack},
+			{"consume", FindFunc(cg, "consumerGroup", "consume")},
+			{"setSeq", FindFunc(cg, "consumerGroup", "SetSeq")},
+			{"setConsumedSeq", FindFunc(cg, "consumerGroup", "SetConsumedSeq")},
+			{"newConsumerGroup", ncg},
+		} {
+			sb.WriteString("def " + f.lean + "PutArgs : List String := " + LeanStrList(c06PutArgs(f.fd)) + "\n")
+		}
+		// Pending / IsEmpty and the expiry loop of replica/partition.go
+		sb.WriteString("def pendingConds : List String := " + LeanStrList(c06IfConds(pend)) + "\n")
+		sb.WriteString("def pendingReturns : List String := " + LeanStrList(c06ReturnExprs(pend)) + "\n")
+		sb.WriteString("def isEmptyReturns : List String := " + LeanStrList(c06ReturnExprs(isEmp)) + "\n")
+		_, rp, err := ParseFile(repo, "replica/partition.go")
+		if err != nil {
+			return "", err
+		}
+		ise := FindFunc(rp, "partition", "IsExpire")
+		if ise == nil {
+			return "", fmt.Errorf("partition.IsExpire not found")
+		}
+		sb.WriteString("def isExpireCalls : List String := " + LeanStrList(CallSeq(ise)) + "\n")
+		sb.WriteString("def isExpireConds : List String := " + LeanStrList(c06IfConds(ise)) + "\n")
+		sb.WriteString("def isExpireLoop : List String := " + LeanStrList(c06RangeBodyKinds(ise)) + "\n")
 		return sb.String(), nil
 	}})
 }
